@@ -33,6 +33,20 @@ class RemoteContextWorker(PersistentProcessWorker):
 
     def do_work(self):
         self._target(None, _check_payload=True)
+
+        def pass_on_sigterm(*args):
+            # forced termination - whoever stops us could not wait for the clean-up below to finish:
+            # the workers spawned within this context must not outlive it
+            for child in self._target.__self__._children:
+                try:
+                    if child.is_alive():
+                        os.kill(child.pid, signal.SIGTERM)
+                except Exception:
+                    pass
+            signal.signal(signal.SIGTERM, signal.SIG_DFL)
+            os.kill(os.getpid(), signal.SIGTERM)
+
+        signal.signal(signal.SIGTERM, pass_on_sigterm)
         try:
             ret = super().do_work()
         finally:
